@@ -36,7 +36,7 @@ def ob_segment(ob):
 
     def target(lay: int, ntr: bool, nsec: bool, b0: int, b1: int, multi: bool, colon: bool, sep: int):
         layout = only if only else choose(lay, W.LAYOUTS)
-        doc, exp = W.build(layout, 2 if ntr else 1, 2 if nsec else 1, (choose(b0, range(3)), choose(b1, (1, 3, 4))), bool(multi),
+        doc, exp = W.build(layout, 2 if ntr else 1, 2 if nsec else 1, (choose(b0, (0, 2, 5)), choose(b1, (1, 3, 7))), bool(multi),
                            bool(colon), choose(sep, range(3)))
         r = _run_modes(doc, ('default', 'segment'))
         return r['default'][0] == exp and r['segment'][0] == exp and r['default'][2] == [] and r['segment'][2] == []
@@ -51,7 +51,7 @@ def ob_segment(ob):
         for v in vs:
             a = v['args']
             doc, exp = W.build(only or W.LAYOUTS[cl(a['lay'], 4)], 2 if a['ntr'] else 1, 2 if a['nsec'] else 1,
-                               (cl(a['b0'], 3), (1, 3, 4)[cl(a['b1'], 3)]), bool(a['multi']), bool(a['colon']), cl(a['sep'], 3))
+                               ((0, 2, 5)[cl(a['b0'], 3)], (1, 3, 7)[cl(a['b1'], 3)]), bool(a['multi']), bool(a['colon']), cl(a['sep'], 3))
             out.append(violation('segment-changes-result', f'{doc.string!r}: parsing with and without `segment` differs (or differs from the '
                                  f'expected tracts {exp}); {v["exc"]}', 'c20_modes', {'text': doc.string, 'expected': exp, 'what': 'segment'}))
         return out[:3]
